@@ -330,8 +330,30 @@ func main() {
 			fmt.Fprintln(os.Stderr, "unknown stream", *name)
 			os.Exit(2)
 		}
+		if st.Setup != nil {
+			st.Setup(*tier)
+		}
 		var cs Case
-		if *index < 0 {
+		if st.Workers == 1 && *index > 0 && st.Gen != nil {
+			// a sequential history: the case depends on the calls before it — re-run them in order
+			for i := 0; i < *index; i++ {
+				_ = st.Gen(caseRand(*seed, st.Name, i), *tier)
+			}
+		}
+		if *index <= -1000 && st.Final != nil {
+			// a final case (results re-read after the whole history): re-run the history of the tier's size
+			n := st.Size[*tier]
+			for i := 0; i < n; i++ {
+				_ = st.Gen(caseRand(*seed, st.Name, i), *tier)
+			}
+			fin := st.Final()
+			k := -1000 - *index
+			if k < len(fin) {
+				cs = fin[k]
+			} else {
+				cs = fin[len(fin)-1]
+			}
+		} else if *index < 0 {
 			cs = st.Fixed()[-1-*index]
 		} else if st.Enum != nil {
 			cs = st.Enum(*index, *tier)
